@@ -17,6 +17,7 @@ import DefconModel.Lemmas.FileSet
 import DefconModel.Lemmas.Parts
 import DefconModel.Lemmas.LayerSet
 import DefconModel.Lemmas.SubFlags
+import DefconModel.Props.C07
 
 namespace DefconModel.Props.C06
 open DefconModel
@@ -277,6 +278,16 @@ example :
     f.dirty = false ∧ (AL.get? f.lf 0).map (fun L => (AL.get? L.subs "A", L.lib, L.dirty)) =
       some (some { contours := [false], anchors := [false], image := some false, imageName := some "i.png" }, false, false) := by
   decide
+
+/-- a layer lib edit raises the chain above it (hypotheses of `layer_lib_dirty_reaches_font`) -/
+example :
+    let f := run demoFont [.layerLibEdit "fore"]
+    (AL.get? f.lf 0).map (fun L => (L.lib, L.dirty)) = some (true, true) ∧ f.lsDirty = true ∧ f.dirty = true := by decide
+
+/-- the hypotheses of `font_not_dirty_means_glyphs_persisted` are met by the freshly opened font:
+not dirty, and its layer's bookkeeping is well formed (C07 `opened_good`) -/
+example : demoFont.dirty = false ∧ ∃ L, AL.get? demoFont.lf 0 = some L ∧ Layer.Good L.base :=
+  ⟨rfl, _, rfl, (Props.C07.opened_good [("A", {}), ("B", {})] (by decide) (by decide)).1⟩
 
 /-- deleting the image file a loaded glyph shows raises that glyph's layer although no glyph is
 dirty: the closure is upwards only -/
